@@ -136,8 +136,9 @@ impl<'a> PrettyPrinter<'a> {
     }
 
     pub(super) fn convert_binary_chain(&'a self, ctx: Context, binary: Binary<'a>) -> ArenaDoc<'a> {
-        let op = binary.op();
-        let prec = op.precedence();
+        let prec = binary.op().precedence();
+        // `not in` is two tokens; every binary in the chain has its own operator.
+        let seen_not = std::cell::Cell::new(false);
         ChainStylist::new(self)
             .process_resolved(
                 ctx,
@@ -146,12 +147,15 @@ impl<'a> PrettyPrinter<'a> {
                     node.cast::<Binary>()
                         .is_some_and(|binary| binary.op().precedence() == prec)
                 },
-                |child| {
-                    if child.kind() == SyntaxKind::In && op == BinOp::NotIn {
-                        Some(self.arena.text(op.as_str()))
-                    } else {
-                        BinOp::from_kind(child.kind()).map(|op| self.arena.text(op.as_str()))
+                |child| match child.kind() {
+                    SyntaxKind::Not => {
+                        seen_not.set(true);
+                        None
                     }
+                    SyntaxKind::In if seen_not.replace(false) => {
+                        Some(self.arena.text(BinOp::NotIn.as_str()))
+                    }
+                    kind => BinOp::from_kind(kind).map(|op| self.arena.text(op.as_str())),
                 },
                 |ctx, child| child.cast().map(|expr| self.convert_expr(ctx, expr)),
                 |ctx, node| node.cast().map(|expr| self.convert_expr(ctx, expr)),
